@@ -88,22 +88,25 @@ class Monitor(Generic[T]):
                 if self.state == -1:
                     self.state = 1
                     raise OOBData(out_value)
+                # resume the coroutine outside of any `except` block, so that
+                # an exception handled here is not its ambient exception
+                thrown: Optional[BaseException] = None
                 try:
                     in_value = yield out_value
-
-                except GeneratorExit:
-                    coro.close()
-                    raise
                 except BaseException as exc:
-                    try:
-                        out_value = coro.throw(exc)
-                    except StopIteration as exc:
-                        return cast(T, exc.value)
-                else:
-                    try:
+                    thrown = exc
+                try:
+                    if thrown is None:
                         out_value = coro.send(in_value)
-                    except StopIteration as exc:
-                        return cast(T, exc.value)
+                    elif isinstance(thrown, GeneratorExit):
+                        coro.close()
+                        raise thrown
+                    else:
+                        out_value = coro.throw(thrown)
+                except StopIteration as stop:
+                    return cast(T, stop.value)
+                finally:
+                    thrown = None
         finally:
             self.state = 0
 
